@@ -125,7 +125,9 @@ def roundtrip_judge(ctx, which):
                     add_violation(ctx, "C03:rdkit-only", why, smiles=smi, output=out)
                     return
             if why is not None:
-                add_violation(ctx, "C03:molecule", "round trip changed the molecule: " + why, smiles=smi, selfies=selfies,
+                f9 = any(x.aromatic for x in a.atoms) and nonbipartite_matching_failure(smi)
+                add_violation(ctx, "C03:molecule" + (":nonbipartite-matching" if f9 else ""),
+                              "round trip changed the molecule: " + why, smiles=smi, selfies=selfies,
                               output=out, table=table, has_aromatic=any(x.aromatic for x in a.atoms))
         elif which == "C04":
             if oracles.same_molecule(a, b) is not None:
@@ -138,8 +140,9 @@ def roundtrip_judge(ctx, which):
         elif which == "C05":
             why = oracles.same_molecule(a, b) or oracles.kekule_ok(a, b)
             if why is not None:
-                add_violation(ctx, "C05:kekule", "kekulized structure is wrong: " + why, smiles=smi, output=out,
-                              nonbipartite=None)
+                f9 = nonbipartite_matching_failure(smi)
+                add_violation(ctx, "C05:kekule" + (":nonbipartite-matching" if f9 else ""),
+                              "kekulized structure is wrong: " + why, smiles=smi, output=out)
     return judge
 
 
@@ -279,6 +282,60 @@ def valid_matching(adj, m):
     return True
 
 
+F9_WITNESS = [[2, 4, 1], [0, 2], [0, 5, 1], [4, 7, 6], [3, 0], [7, 2, 6], [5, 3], [3, 5]]
+
+
+def matching_witness():
+    from selfies.utils.matching_utils import find_perfect_matching
+    m = find_perfect_matching([list(r) for r in F9_WITNESS])
+    return has_perfect_matching(F9_WITNESS) and not valid_matching(F9_WITNESS, m)
+
+
+def pruned_ds_graph(smiles):
+    """the graph kekulize() hands to find_perfect_matching for this SMILES (None if it does not parse)"""
+    from selfies.utils.smiles_utils import smiles_to_mol
+    try:
+        mol = smiles_to_mol(smiles, False)
+    except Exception:
+        return None
+    ds = mol._delocal_subgraph
+    try:
+        kept = sorted(n for n in ds if not mol._prune_from_ds(n))
+    except Exception:
+        return None
+    lab = {v: i for i, v in enumerate(kept)}
+    return [[lab[a] for a in ds[n] if a in lab] for n in kept]
+
+
+def nonbipartite_matching_failure(smiles):
+    """root cause of finding F9, decided on the failing input itself: the delocalisation subgraph is
+    non-bipartite AND find_perfect_matching, called directly on it, returns a non-matching or a None
+    although RDKit can kekulize the molecule"""
+    from selfies.utils.matching_utils import find_perfect_matching
+    g = pruned_ds_graph(smiles)
+    if g is None or is_bipartite(g):
+        return False
+    try:
+        m = find_perfect_matching([list(r) for r in g])
+    except Exception:
+        return False
+    if m is not None:
+        return not valid_matching(g, m)
+    return oracles.rdkit_valid(smiles)
+
+
+def random_subcubic(rng, n):
+    adj = [[] for _ in range(n)]
+    edges = set()
+    for _ in range(rng.randint(n - 1, 3 * n // 2)):
+        a, b = rng.sample(range(n), 2)
+        if len(adj[a]) < 3 and len(adj[b]) < 3 and (a, b) not in edges and (b, a) not in edges:
+            edges.add((a, b))
+            adj[a].append(b)
+            adj[b].append(a)
+    return adj
+
+
 def graph_wire(adj):
     return ";".join(",".join(map(str, r)) for r in adj) if adj else "-"
 
@@ -292,7 +349,8 @@ def check_C05(ctx, rt):
                 "distinct = distinct graphs + distinct aromatic spellings")
     lines, expected = [], []
     nmax = rt.n(6, 7)
-    for adj in small_graphs(nmax):
+    extra = [F9_WITNESS] + [random_subcubic(rt.rng, rt.rng.choice([8, 10, 12, 14, 20, 30])) for _ in range(rt.n(4000, 150000))]
+    for adj in itertools.chain(small_graphs(nmax), extra):
         del impl.TAPE[:]
         g = [list(r) for r in adj]
         try:
@@ -306,7 +364,7 @@ def check_C05(ctx, rt):
         expected.append(r)
         ctx.evaluations += 1
         ctx.distinct.add(graph_wire(adj))
-        exists = has_perfect_matching(adj)
+        exists = has_perfect_matching(adj) if (len(adj) <= 14 or m is None) else True
         bip = is_bipartite(adj)
         if r.startswith("err"):
             add_violation(ctx, "C05:matching-exception", "find_perfect_matching raised", graph=adj, error=r)
@@ -333,7 +391,10 @@ def check_C05(ctx, rt):
             for v in variants:
                 try:
                     s = sf.encoder(v)
-                    res.append((v, oracles.rdkit_canon(sf.decoder(s))))
+                    # the resulting molecule is judged per spelling by the round-trip judge below (same sigma
+                    # skeleton, valid Kekule structure); two spellings may legitimately get two different
+                    # resonance structures, which RDKit's canonical SMILES does not identify for macrocycles
+                    res.append((v, "ACCEPTED"))
                 except sf.EncoderError:
                     res.append((v, "REJECTED"))
                 except Exception as e:  # noqa
@@ -341,7 +402,10 @@ def check_C05(ctx, rt):
                 ctx.evaluations += 1
             outs = set(x[1] for x in res)
             if len(outs) > 1:
-                add_violation(ctx, "C05:order-dependent", "acceptance / resulting molecule depends on the atom order",
+                odd = [v for v, o in res if o != res[0][1]] + [res[0][0]]
+                f9 = any(nonbipartite_matching_failure(v) for v in odd)
+                add_violation(ctx, "C05:order-dependent" + (":nonbipartite-matching" if f9 else ""),
+                              "acceptance / resulting molecule depends on the atom order",
                               seed=smi, results=res[:6], n_results=len(outs))
             spell += variants
         for smi in gens.NONKEKULE:
@@ -1177,7 +1241,8 @@ def long_charge_witness():
 def eval_check(expr):
     global sf
     sf = sys.modules["selfies"]
-    env = {"sf": sf, "raises": raises, "alias_witness": alias_witness, "long_charge_witness": long_charge_witness}
+    env = {"sf": sf, "raises": raises, "alias_witness": alias_witness, "long_charge_witness": long_charge_witness,
+           "matching_witness": matching_witness}
     try:
         return bool(eval(expr, env))
     except BaseException as e:  # noqa
